@@ -371,3 +371,254 @@ Print Assumptions C04_translated_entry_hash_mask.
 Print Assumptions C04_translated_uintLe_is_le_dec.
 Print Assumptions C04_translated_putUintLe_is_le_enc.
 Print Assumptions C04_translated_eytzinger_is_the_model.
+
+(* ================================================================ the LEGACY packages' Go functions, TRANSLATED
+   "The same holds for the two legacy formats the server still reads": gen/golite.go also re-translates, on every
+   check, searchEytzinger, hashUint64, Header.BucketHash, BucketHeader.Hash, uintLe (query.go / compactindex.go) and
+   eytzinger (build.go) of deprecated/compactindex36 (Generated/GoLiteL36C04.v) and deprecated/compactindex
+   (Generated/GoLiteL8C04.v).  Five of the six are today the same GoLite terms as compactindexsized's (checked by
+   reflexivity in GoLiteC04_Legacy.v on every run) and inherit its theorems, each run inside its OWN package's
+   program; the two searchEytzinger are different functions (no `index < min` exit; the result beside an error is
+   Empty = 36 zero bytes, resp. 0; Entry.Value is a [36]byte, resp. a uint64) and are proved equal to CI.search_get
+   — the search lookup_legacy36 / lookup_legacy8 run — in GoLiteC04_LegacySearch.v. *)
+Require YF.Generated.GoLiteL36C04 YF.Generated.GoLiteL8C04 YF.GoLiteC04_Legacy YF.GoLiteC04_LegacySearch YF.ReadAt.
+
+(* ---------------------------------------------------------------- deprecated/compactindex36 *)
+(* how the search's inputs and outputs are written as Go values: the getter hands out Entry{Hash, Value} with Value
+   the entry's value bytes copied into a [36]byte (cut / zero-padded: C04_Model.fit 36), or (Entry{}, err) when the
+   read fails; the result is (value, nil), (Empty, ErrNotFound) or (Empty, err) *)
+Example C04_legacy36_translated_search_encoding : forall (get : nat -> option CI.entry) (i : nat) (e : CI.entry) (v : list N),
+  (get i = Some e ->
+   GoLiteC04_LegacySearch.ext_get36 get "getter"%string [GoLite.VInt (Z.of_nat i)] =
+   Some (GoLite.VTuple [GoLite.VStruct [("Hash"%string, GoLite.VInt (Z.of_N (fst e)));
+                                        ("Value"%string, GoLite.VInts (map Z.of_N (C04_Model.fit 36 (snd e))))]; GoLite.VNil])) /\
+  (get i = None ->
+   GoLiteC04_LegacySearch.ext_get36 get "getter"%string [GoLite.VInt (Z.of_nat i)] =
+   Some (GoLite.VTuple [GoLite.VStruct [("Hash"%string, GoLite.VInt 0%Z); ("Value"%string, GoLite.VInts (repeat 0%Z 36))];
+                        GoLite.VErr "read"%string])) /\
+  GoLiteC04_LegacySearch.enc36 (CI.Found v) = GoLite.RRet (GoLite.VTuple [GoLite.VInts (map Z.of_N (C04_Model.fit 36 v)); GoLite.VNil]) /\
+  GoLiteC04_LegacySearch.enc36 CI.NotFound = GoLite.RRet (GoLite.VTuple [GoLite.VInts (repeat 0%Z 36); GoLite.VErr "ErrNotFound"%string]) /\
+  GoLiteC04_LegacySearch.enc36 CI.ReadErr = GoLite.RRet (GoLite.VTuple [GoLite.VInts (repeat 0%Z 36); GoLite.VErr "read"%string]) /\
+  GoLiteC04_LegacySearch.enc36_bytes (CI.Found v) = GoLite.RRet (GoLite.VTuple [GoLite.VInts (map Z.of_N v); GoLite.VNil]) /\
+  GoLiteC04_LegacySearch.enc36_bytes CI.NotFound = GoLiteC04_LegacySearch.enc36 CI.NotFound /\
+  GoLiteC04_LegacySearch.enc36_bytes CI.ReadErr = GoLiteC04_LegacySearch.enc36 CI.ReadErr.
+Proof.
+  intros get i e v. unfold GoLiteC04_LegacySearch.ext_get36. rewrite Nat2Z.id.
+  split; [intros ->; reflexivity|]. split; [intros ->; reflexivity|]. repeat split; reflexivity.
+Qed.
+
+(* deprecated/compactindex36/query.go:searchEytzinger is CI.search_get for EVERY entry oracle [get] (None = the read
+   of that entry failed), every value of the ignored parameter `min`, every bucket size below 2^62 and every target
+   hash; the loop needs at most n+1 rounds. *)
+Theorem C04_legacy36_translated_search_is_the_model : forall (get : nat -> option CI.entry) (f : nat) (mn : Z) (n : nat) (x : N),
+  (Z.of_nat n < 4611686018427387904)%Z -> n < f ->
+  GoLite.call GoLiteL36C04.prog (GoLiteC04_LegacySearch.ext_get36 get) f "searchEytzinger"%string
+    [GoLite.VInt mn; GoLite.VInt (Z.of_nat n); GoLite.VInt (Z.of_N x)]
+  = GoLiteC04_LegacySearch.enc36 (CI.search_get f get n x 0).
+Proof. exact (GoLiteC04_LegacySearch.searchEytzinger36_is_search_get GoLiteL36C04.prog GoLiteL36C04.prog_searchEytzinger). Qed.
+
+(* ... and on the bucket the model's reader locates for a key (header at 32 + 16*bucket, domain d, n entries at off)
+   the translated search, called as Bucket.Lookup calls it (min 0, max n, target h24 d key, entries read from the
+   file), returns exactly what lookup_legacy36 returns after Open (lookup_at 36 32 nb): a hit gives the 36 value
+   bytes as they are in the file, a miss / failed read gives Empty with ErrNotFound / the read error. *)
+Theorem C04_legacy36_translated_search_is_the_lookup :
+  forall (hash : N -> list N -> N) (bucket_of : nat -> list N -> nat) (nb : nat) (file k bh : list N) (d n hl off : nat),
+  ReadAt.read_at file (32 + 16 * bucket_of nb k) 16 = Some bh -> CI.parse_bucket_hdr bh = (d, n, hl, off) ->
+  (Z.of_nat n < 4611686018427387904)%Z ->
+  GoLite.call GoLiteL36C04.prog (GoLiteC04_LegacySearch.ext_get36 (C04_Model.load_entry8 36 file off)) (S n) "searchEytzinger"%string
+    [GoLite.VInt 0%Z; GoLite.VInt (Z.of_nat n); GoLite.VInt (Z.of_N (CI.h24 hash (N.of_nat d) k))]
+  = GoLiteC04_LegacySearch.enc36_bytes (C04_Model.lookup_at hash bucket_of 36 32 nb file k).
+Proof. exact (GoLiteC04_LegacySearch.lookup_at36_is_translated_search GoLiteL36C04.prog GoLiteL36C04.prog_searchEytzinger). Qed.
+
+(* the other five functions of deprecated/compactindex36: same statements as for compactindexsized *)
+Theorem C04_legacy36_translated_hashUint64_is_murmur : forall ext fuel (x : N), (x < 18446744073709551616)%N ->
+  GoLite.call GoLiteL36C04.prog ext fuel "hashUint64"%string [GoLite.VInt (Z.of_N x)]
+  = GoLite.RRet (GoLite.VInt (Z.of_N (murmur x))).
+Proof. exact GoLiteC04_Legacy.legacy36_hashUint64_is_murmur. Qed.
+
+Theorem C04_legacy36_translated_bucket_hash_is_the_model :
+  forall (sum64 : list Z -> N), (forall k, (sum64 k < 18446744073709551616)%N) ->
+  forall f key (nb : N) mx, (0 < nb)%N -> (nb < 4294967296)%N ->
+  let h := GoLite.VStruct [("NumBuckets"%string, GoLite.VInt (Z.of_N nb)); ("X"%string, mx)] in
+  let r := ((18446744073709551616 - nb) mod nb)%N in
+  forall v, GoLite.call GoLiteL36C04.prog (GoLiteC04_Proofs.ext_sum sum64) f "Header.BucketHash"%string [h; GoLite.VInts key] = GoLite.RRet v ->
+  exists k, (r <= GoLiteC04_Proofs.rounds k (sum64 key))%N /\
+            v = GoLite.VInt (Z.of_N (GoLiteC04_Proofs.rounds k (sum64 key) mod nb)) /\
+            (k <= 64 -> v = GoLite.VInt (Z.of_N (reject 64 (sum64 key) r mod nb))).
+Proof. exact GoLiteC04_Legacy.legacy36_BucketHash_is_model_reject. Qed.
+
+Theorem C04_legacy36_translated_entry_hash_mask :
+  forall (eh : Z -> list Z -> N), (forall d k, (eh d k < 18446744073709551616)%N) ->
+  forall f d (hl : N) key rest, (0 <= d)%Z -> (1 <= hl <= 8)%N ->
+  GoLite.call GoLiteL36C04.prog (GoLiteC04_Codec.ext_eh eh) f "BucketHeader.Hash"%string
+    [GoLite.VStruct (("HashDomain"%string, GoLite.VInt d) :: ("NumEntries"%string, GoLite.VInt 0%Z) ::
+                     ("HashLen"%string, GoLite.VInt (Z.of_N hl)) :: rest); GoLite.VInts key]
+  = GoLite.RRet (GoLite.VInt (Z.of_N (eh d key mod 256 ^ hl))).
+Proof. exact GoLiteC04_Legacy.legacy36_BucketHeader_Hash_is_mod. Qed.
+
+Theorem C04_legacy36_translated_uintLe_is_le_dec : forall ext fuel (bs : list N), List.length bs <= 8 ->
+  GoLite.call GoLiteL36C04.prog ext fuel "uintLe"%string [GoLite.VInts (map Z.of_N bs)]
+  = GoLite.RRet (GoLite.VInt (Z.of_N (Codec.le_dec bs))).
+Proof. exact GoLiteC04_Legacy.legacy36_uintLe_is_le_dec. Qed.
+
+Theorem C04_legacy36_translated_eytzinger_is_the_model : forall ext f (inp out : list Z),
+  List.length out = List.length inp -> (Z.of_nat (List.length inp) < 2305843009213693952)%Z -> List.length inp < 2 ^ f ->
+  GoLite.call GoLiteL36C04.prog ext f "eytzinger"%string [GoLite.VInts inp; GoLite.VInts out; GoLite.VInt 0%Z; GoLite.VInt 1%Z]
+  = GoLiteC04_Eytz.ey_ret (Eytz.go Z 0%Z (S f) inp out 0 1).
+Proof. exact GoLiteC04_Legacy.legacy36_eytzinger_is_go. Qed.
+
+(* non-vacuity: the translated layout and search of deprecated/compactindex36 RUN (vm_compute inside the kernel): ten
+   keys laid out by the translated eytzinger, then every key found with its 36-byte value and an absent one answered
+   by (Empty, ErrNotFound), a failing read by (Empty, err) — by the translated searchEytzinger *)
+Example C04_legacy36_translated_functions_run :
+  let keys := [10; 20; 30; 40; 50; 60; 70; 80; 90; 100]%Z in
+  match GoLite.call GoLiteL36C04.prog GoLite.no_ext 10 "eytzinger"%string
+          [GoLite.VInts keys; GoLite.VInts (repeat 0%Z 10); GoLite.VInt 0%Z; GoLite.VInt 1%Z] with
+  | GoLite.RRet (GoLite.VTuple [GoLite.VInt 10%Z; GoLite.VInts arr]) =>
+      let get := fun i => match nth_error arr i with Some h => Some (Z.to_N h, repeat (Z.to_N h) 36) | None => None end in
+      forallb (fun k => match GoLite.call GoLiteL36C04.prog (GoLiteC04_LegacySearch.ext_get36 get) 20 "searchEytzinger"%string
+                                [GoLite.VInt 0%Z; GoLite.VInt 10%Z; GoLite.VInt k] with
+                        | GoLite.RRet (GoLite.VTuple [GoLite.VInts v; GoLite.VNil]) =>
+                            andb (Nat.eqb (List.length v) 36) (forallb (Z.eqb k) v)
+                        | _ => false end) keys = true /\
+      GoLite.call GoLiteL36C04.prog (GoLiteC04_LegacySearch.ext_get36 get) 20 "searchEytzinger"%string
+        [GoLite.VInt 0%Z; GoLite.VInt 10%Z; GoLite.VInt 55%Z]
+      = GoLite.RRet (GoLite.VTuple [GoLite.VInts (repeat 0%Z 36); GoLite.VErr "ErrNotFound"%string]) /\
+      GoLite.call GoLiteL36C04.prog (GoLiteC04_LegacySearch.ext_get36 (fun i => if Nat.eqb i 1 then None else get i)) 20
+        "searchEytzinger"%string [GoLite.VInt 0%Z; GoLite.VInt 10%Z; GoLite.VInt 20%Z]
+      = GoLite.RRet (GoLite.VTuple [GoLite.VInts (repeat 0%Z 36); GoLite.VErr "read"%string])
+  | _ => False
+  end.
+Proof. vm_compute. repeat split; reflexivity. Qed.
+
+(* ---------------------------------------------------------------- deprecated/compactindex (uint64 values) *)
+(* the getter hands out Entry{Hash, Value} with Value = uintLe(value bytes) = Codec.le_dec of them, or (Entry{}, err);
+   the result is (value, nil), (0, ErrNotFound) or (0, err) — the [res8] of lookup_legacy8, which turns a hit
+   [Found bs] of the search into [Found8 (le_dec bs)] in the same way *)
+Example C04_legacy8_translated_search_encoding : forall (get : nat -> option CI.entry) (i : nat) (e : CI.entry) (v : N) (bs : list N),
+  (get i = Some e ->
+   GoLiteC04_LegacySearch.ext_get8 get "getter"%string [GoLite.VInt (Z.of_nat i)] =
+   Some (GoLite.VTuple [GoLite.VStruct [("Hash"%string, GoLite.VInt (Z.of_N (fst e)));
+                                        ("Value"%string, GoLite.VInt (Z.of_N (Codec.le_dec (snd e))))]; GoLite.VNil])) /\
+  (get i = None ->
+   GoLiteC04_LegacySearch.ext_get8 get "getter"%string [GoLite.VInt (Z.of_nat i)] =
+   Some (GoLite.VTuple [GoLite.VStruct [("Hash"%string, GoLite.VInt 0%Z); ("Value"%string, GoLite.VInt 0%Z)];
+                        GoLite.VErr "read"%string])) /\
+  GoLiteC04_LegacySearch.enc_res8 (Found8 v) = GoLite.RRet (GoLite.VTuple [GoLite.VInt (Z.of_N v); GoLite.VNil]) /\
+  GoLiteC04_LegacySearch.enc_res8 NotFound8 = GoLite.RRet (GoLite.VTuple [GoLite.VInt 0%Z; GoLite.VErr "ErrNotFound"%string]) /\
+  GoLiteC04_LegacySearch.enc_res8 ReadErr8 = GoLite.RRet (GoLite.VTuple [GoLite.VInt 0%Z; GoLite.VErr "read"%string]) /\
+  GoLiteC04_LegacySearch.res8_of (CI.Found bs) = Found8 (Codec.le_dec bs) /\
+  GoLiteC04_LegacySearch.res8_of CI.NotFound = NotFound8 /\
+  GoLiteC04_LegacySearch.res8_of CI.ReadErr = ReadErr8.
+Proof.
+  intros get i e v bs. unfold GoLiteC04_LegacySearch.ext_get8. rewrite Nat2Z.id.
+  split; [intros ->; reflexivity|]. split; [intros ->; reflexivity|]. repeat split; reflexivity.
+Qed.
+
+(* lookup_legacy8 is [res8_of] applied to the model's reader (restated: this is how it uses the search's result) *)
+Theorem C04_legacy8_lookup_is_res8_of_the_search : forall (hash : N -> list N -> N) (bucket_of : nat -> list N -> nat) (file k : list N),
+  lookup_legacy8 hash bucket_of file k =
+  match open_legacy file with
+  | None => ReadErr8
+  | Some (fs, nb) =>
+      if Nat.eqb nb 0 then ReadErr8
+      else GoLiteC04_LegacySearch.res8_of (C04_Model.lookup_at hash bucket_of (int_width fs) 32 nb file k)
+  end.
+Proof. exact GoLiteC04_LegacySearch.lookup_legacy8_res8_of. Qed.
+
+(* deprecated/compactindex/query.go:searchEytzinger is CI.search_get for EVERY entry oracle, every value of the
+   ignored parameter `min`, every bucket size below 2^62 and every target hash; at most n+1 rounds. *)
+Theorem C04_legacy8_translated_search_is_the_model : forall (get : nat -> option CI.entry) (f : nat) (mn : Z) (n : nat) (x : N),
+  (Z.of_nat n < 4611686018427387904)%Z -> n < f ->
+  GoLite.call GoLiteL8C04.prog (GoLiteC04_LegacySearch.ext_get8 get) f "searchEytzinger"%string
+    [GoLite.VInt mn; GoLite.VInt (Z.of_nat n); GoLite.VInt (Z.of_N x)]
+  = GoLiteC04_LegacySearch.enc_res8 (GoLiteC04_LegacySearch.res8_of (CI.search_get f get n x 0)).
+Proof. exact (GoLiteC04_LegacySearch.searchEytzinger8_is_search_get GoLiteL8C04.prog GoLiteL8C04.prog_searchEytzinger). Qed.
+
+(* ... and on the bucket the model's reader locates for a key the translated search, called as Bucket.Lookup calls
+   it, returns exactly the uint64 answer lookup_legacy8 gives after Open (w = intWidth(FileSize) value bytes) *)
+Theorem C04_legacy8_translated_search_is_the_lookup :
+  forall (hash : N -> list N -> N) (bucket_of : nat -> list N -> nat) (w nb : nat) (file k bh : list N) (d n hl off : nat),
+  ReadAt.read_at file (32 + 16 * bucket_of nb k) 16 = Some bh -> CI.parse_bucket_hdr bh = (d, n, hl, off) ->
+  (Z.of_nat n < 4611686018427387904)%Z ->
+  GoLite.call GoLiteL8C04.prog (GoLiteC04_LegacySearch.ext_get8 (C04_Model.load_entry8 w file off)) (S n) "searchEytzinger"%string
+    [GoLite.VInt 0%Z; GoLite.VInt (Z.of_nat n); GoLite.VInt (Z.of_N (CI.h24 hash (N.of_nat d) k))]
+  = GoLiteC04_LegacySearch.enc_res8 (GoLiteC04_LegacySearch.res8_of (C04_Model.lookup_at hash bucket_of w 32 nb file k)).
+Proof. exact (GoLiteC04_LegacySearch.lookup_at8_is_translated_search GoLiteL8C04.prog GoLiteL8C04.prog_searchEytzinger). Qed.
+
+(* the other five functions of deprecated/compactindex: same statements as for compactindexsized *)
+Theorem C04_legacy8_translated_hashUint64_is_murmur : forall ext fuel (x : N), (x < 18446744073709551616)%N ->
+  GoLite.call GoLiteL8C04.prog ext fuel "hashUint64"%string [GoLite.VInt (Z.of_N x)]
+  = GoLite.RRet (GoLite.VInt (Z.of_N (murmur x))).
+Proof. exact GoLiteC04_Legacy.legacy8_hashUint64_is_murmur. Qed.
+
+Theorem C04_legacy8_translated_bucket_hash_is_the_model :
+  forall (sum64 : list Z -> N), (forall k, (sum64 k < 18446744073709551616)%N) ->
+  forall f key (nb : N) mx, (0 < nb)%N -> (nb < 4294967296)%N ->
+  let h := GoLite.VStruct [("NumBuckets"%string, GoLite.VInt (Z.of_N nb)); ("X"%string, mx)] in
+  let r := ((18446744073709551616 - nb) mod nb)%N in
+  forall v, GoLite.call GoLiteL8C04.prog (GoLiteC04_Proofs.ext_sum sum64) f "Header.BucketHash"%string [h; GoLite.VInts key] = GoLite.RRet v ->
+  exists k, (r <= GoLiteC04_Proofs.rounds k (sum64 key))%N /\
+            v = GoLite.VInt (Z.of_N (GoLiteC04_Proofs.rounds k (sum64 key) mod nb)) /\
+            (k <= 64 -> v = GoLite.VInt (Z.of_N (reject 64 (sum64 key) r mod nb))).
+Proof. exact GoLiteC04_Legacy.legacy8_BucketHash_is_model_reject. Qed.
+
+Theorem C04_legacy8_translated_entry_hash_mask :
+  forall (eh : Z -> list Z -> N), (forall d k, (eh d k < 18446744073709551616)%N) ->
+  forall f d (hl : N) key rest, (0 <= d)%Z -> (1 <= hl <= 8)%N ->
+  GoLite.call GoLiteL8C04.prog (GoLiteC04_Codec.ext_eh eh) f "BucketHeader.Hash"%string
+    [GoLite.VStruct (("HashDomain"%string, GoLite.VInt d) :: ("NumEntries"%string, GoLite.VInt 0%Z) ::
+                     ("HashLen"%string, GoLite.VInt (Z.of_N hl)) :: rest); GoLite.VInts key]
+  = GoLite.RRet (GoLite.VInt (Z.of_N (eh d key mod 256 ^ hl))).
+Proof. exact GoLiteC04_Legacy.legacy8_BucketHeader_Hash_is_mod. Qed.
+
+Theorem C04_legacy8_translated_uintLe_is_le_dec : forall ext fuel (bs : list N), List.length bs <= 8 ->
+  GoLite.call GoLiteL8C04.prog ext fuel "uintLe"%string [GoLite.VInts (map Z.of_N bs)]
+  = GoLite.RRet (GoLite.VInt (Z.of_N (Codec.le_dec bs))).
+Proof. exact GoLiteC04_Legacy.legacy8_uintLe_is_le_dec. Qed.
+
+Theorem C04_legacy8_translated_eytzinger_is_the_model : forall ext f (inp out : list Z),
+  List.length out = List.length inp -> (Z.of_nat (List.length inp) < 2305843009213693952)%Z -> List.length inp < 2 ^ f ->
+  GoLite.call GoLiteL8C04.prog ext f "eytzinger"%string [GoLite.VInts inp; GoLite.VInts out; GoLite.VInt 0%Z; GoLite.VInt 1%Z]
+  = GoLiteC04_Eytz.ey_ret (Eytz.go Z 0%Z (S f) inp out 0 1).
+Proof. exact GoLiteC04_Legacy.legacy8_eytzinger_is_go. Qed.
+
+(* non-vacuity: the translated layout and search of deprecated/compactindex RUN: ten keys laid out by the translated
+   eytzinger, then every key found with its uint64 value (here 1000 + key, stored in 2 value bytes), an absent one
+   answered by (0, ErrNotFound), a failing read by (0, err) — by the translated searchEytzinger *)
+Example C04_legacy8_translated_functions_run :
+  let keys := [10; 20; 30; 40; 50; 60; 70; 80; 90; 100]%Z in
+  match GoLite.call GoLiteL8C04.prog GoLite.no_ext 10 "eytzinger"%string
+          [GoLite.VInts keys; GoLite.VInts (repeat 0%Z 10); GoLite.VInt 0%Z; GoLite.VInt 1%Z] with
+  | GoLite.RRet (GoLite.VTuple [GoLite.VInt 10%Z; GoLite.VInts arr]) =>
+      let get := fun i => match nth_error arr i with
+                          | Some h => Some (Z.to_N h, Codec.le_enc 2 (1000 + Z.to_N h)%N) | None => None end in
+      forallb (fun k => match GoLite.call GoLiteL8C04.prog (GoLiteC04_LegacySearch.ext_get8 get) 20 "searchEytzinger"%string
+                                [GoLite.VInt 0%Z; GoLite.VInt 10%Z; GoLite.VInt k] with
+                        | GoLite.RRet (GoLite.VTuple [GoLite.VInt v; GoLite.VNil]) => Z.eqb v (1000 + k)
+                        | _ => false end) keys = true /\
+      GoLite.call GoLiteL8C04.prog (GoLiteC04_LegacySearch.ext_get8 get) 20 "searchEytzinger"%string
+        [GoLite.VInt 0%Z; GoLite.VInt 10%Z; GoLite.VInt 55%Z]
+      = GoLite.RRet (GoLite.VTuple [GoLite.VInt 0%Z; GoLite.VErr "ErrNotFound"%string]) /\
+      GoLite.call GoLiteL8C04.prog (GoLiteC04_LegacySearch.ext_get8 (fun i => if Nat.eqb i 1 then None else get i)) 20
+        "searchEytzinger"%string [GoLite.VInt 0%Z; GoLite.VInt 10%Z; GoLite.VInt 20%Z]
+      = GoLite.RRet (GoLite.VTuple [GoLite.VInt 0%Z; GoLite.VErr "read"%string])
+  | _ => False
+  end.
+Proof. vm_compute. repeat split; reflexivity. Qed.
+
+Print Assumptions C04_legacy36_translated_search_is_the_model.
+Print Assumptions C04_legacy36_translated_search_is_the_lookup.
+Print Assumptions C04_legacy36_translated_hashUint64_is_murmur.
+Print Assumptions C04_legacy36_translated_bucket_hash_is_the_model.
+Print Assumptions C04_legacy36_translated_entry_hash_mask.
+Print Assumptions C04_legacy36_translated_uintLe_is_le_dec.
+Print Assumptions C04_legacy36_translated_eytzinger_is_the_model.
+Print Assumptions C04_legacy8_lookup_is_res8_of_the_search.
+Print Assumptions C04_legacy8_translated_search_is_the_model.
+Print Assumptions C04_legacy8_translated_search_is_the_lookup.
+Print Assumptions C04_legacy8_translated_hashUint64_is_murmur.
+Print Assumptions C04_legacy8_translated_bucket_hash_is_the_model.
+Print Assumptions C04_legacy8_translated_entry_hash_mask.
+Print Assumptions C04_legacy8_translated_uintLe_is_le_dec.
+Print Assumptions C04_legacy8_translated_eytzinger_is_the_model.
